@@ -11,7 +11,7 @@
     an initial state with empty maps.  [owns_o pc] = the obtain-map channel the goroutine is the
     worker for, [waits_on pc] = the channel it waits on. *)
 From Coq Require Import List ZArith Bool Lia.
-From CM Require Import Gen.Consts SingleFlight.Model SingleFlight.Proofs.
+From CM Require Import Gen.Consts SingleFlight.Model SingleFlight.Proofs SingleFlight.Check.
 Import ListNotations.
 Open Scope Z_scope.
 
@@ -49,6 +49,19 @@ Theorem C13_waiters_do_not_repeat_the_work :
      end).
 Proof. split; [exact wake_is_lazy|split; [exact lazy_closed|exact lazy_no_work]]. Qed.
 Print Assumptions C13_waiters_do_not_repeat_the_work.
+
+(** the monitor's clause "at most one goroutine per name is at the issuer" ([Check.point_ok]) is this
+    invariant read through [pos_of] *)
+Theorem C13_monitor_issue_clause : forall s, reachable s ->
+  forall t1 t2 th1 th2, thr s t1 = Some th1 -> thr s t2 = Some th2 -> t_name th1 = t_name th2 ->
+  pos_of s th1 = AtIssue -> pos_of s th2 = AtIssue -> t1 = t2.
+Proof.
+  intros s R t1 t2 th1 th2 H1 H2 E P1 P2.
+  apply (one_obtain_worker_per_name s R t1 t2 th1 th2 H1 H2 E).
+  - unfold pos_of in P1. destruct (t_pc th1); try discriminate; try (destruct r; discriminate); cbn; discriminate.
+  - unfold pos_of in P2. destruct (t_pc th2); try discriminate; try (destruct r; discriminate); cbn; discriminate.
+Qed.
+Print Assumptions C13_monitor_issue_clause.
 
 (** ** every waiting handshake is released as soon as the worker finishes *)
 
